@@ -31,3 +31,33 @@ claim("C19", "must-pass-through / control dependence on MIR + field-flow provena
       "statements." + DECIDES + " Equality with compilation directly from the compiler's output and hash stability under JSON are not decided.",
       "trusted: rustc MIR, fact dumper, rules/guards.py; tables/c19_builtin_order.txt is an external specification",
       "DESIGN.md section 4, C19")
+claim("C03", "abstract interpretation of the CasmBuilder API over MIR paths (def-use of Var values) + CASM-level CFG of the abstract listing",
+      "In every libfunc builder, on every Rust-level path of the generator and every path of the generated CASM, each memory cell written "
+      "by a hint is subsequently used by a constraint-bearing instruction (a real equation, a write to a builtin buffer, or the condition of "
+      "a conditional jump) before it can reach a result; integer-witness outputs (DivMod, WideMul128, SquareRoot, Uint256DivMod, "
+      "Uint512DivModByUint256, Uint256SquareRoot, U256InvModN, LinearSplit) additionally reach a range-check write directly or through "
+      "derived values, are determined by an equation over pinned values, or leave the libfunc inside a guarantee." + DECIDES +
+      " Whether the constraints are arithmetically sufficient (bounds, wrap-around, which algorithm is sound for which ranges) and the "
+      "hint implementations in the runner are not decided.",
+      "trusted: rustc MIR, fact dumper, the CasmBuilder model in rules/casm_abs.py; range-check pointers are recognised by the builders' naming convention",
+      "DESIGN.md section 4, C03")
+claim("C20", "field-flow and variant-flow identity on MIR pairs (new / embed) with provenance through closures, &mut calls and control dependence",
+      "For every cached mirror type XCached of the defs, semantic and lowering caches with its functions new(source, ctx) and "
+      "embed/get_embedded(self, ctx): every rebuilt source field with a same-named mirror field derives from that field (not from a "
+      "same-typed sibling), no source field is silently defaulted outside the reasoned exception table, every mirror field is read on "
+      "load and saved from its source field; for enum mirrors the composition source variant -> mirror variant -> source variant is the "
+      "identity, unsupported (panicking) variants are an enumerated set and no catch-all arm swallows a source variant; cached lowerings "
+      "are consulted only for crates with a configured cache file." + DECIDES +
+      " Consistency of the id lookup tables across sections and blob/settings matching are not decided.",
+      "trusted: rustc MIR, fact dumper, name-based pairing of mirror and source fields; tables/c20_exceptions.tsv lists reasoned exceptions; known_findings.jsonl lists one genuine defect",
+      "DESIGN.md section 4, C20")
+claim("C14", "call-graph reachability (class-hierarchy resolution) + panic-site inventory + allocation-size provenance + guard obligations",
+      "(a) Bounded allocation: every allocation in code reachable from the untrusted-Sierra entry points has a size that is constant, "
+      "derives from the length of materialised data or a <=16-bit quantity, or is dominated by a comparison against the remaining input. "
+      "(b) Panic edges: the multiset of panic-capable sites (overflow/bounds/division asserts, explicit panics, unwrap/expect/index/zip_eq/"
+      "integer sum/into_or_panic ...) in functions reachable from those entry points is contained in the recorded inventory "
+      "(tables/c14_sites.tsv); the validations that protect them are on every path; every rejection that was constructed in reachable "
+      "code still is." + DECIDES + " Inventory rows of class U are an inherited baseline that is not individually triaged: for them the "
+      "claim is only that the set does not grow. Termination and memory bounds beyond (a) are not decided.",
+      "trusted: rustc MIR, fact dumper; external crates are leaves modelled by the list of panicking entry points in rules/c14.py; class-U inventory rows carry no safety claim",
+      "DESIGN.md section 4, C14")
